@@ -92,14 +92,27 @@ def gen(limit, rules=RULES, tag='m', seed=7):
     print('kept', done, 'of', min(limit, len(cands)), 'candidates (', len(cands), 'total )')
 
 
+FIRST = {'src/types/mapping.rs': ['C02', 'C09', 'C10', 'C07', 'C03', 'C04'], 'src/types/value.rs': ['C02', 'C07', 'C05', 'C04', 'C19', 'C11', 'C03'],
+         'src/refs/mod.rs': ['C03', 'C08', 'C05', 'C04', 'C06', 'C11'], 'src/refs/parser.rs': ['C06', 'C05', 'C11', 'C03'],
+         'src/node/mod.rs': ['C01', 'C15', 'C16', 'C11', 'C18', 'C17'], 'src/node/nodeinfo.rs': ['C18', 'C19', 'C13'],
+         'src/list/removable.rs': ['C17', 'C01', 'C13'], 'src/list/unique.rs': ['C01', 'C13', 'C17'],
+         'src/inventory.rs': ['C13', 'C12', 'C19'], 'src/config.rs': ['C20', 'C16', 'C14'], 'src/lib.rs': ['C14', 'C18', 'C20', 'C11', 'C12']}
+
+
 def check():
+    done = set(l.split(' ')[0] for l in open('/tmp/mut/results.txt')) if os.path.exists('/tmp/mut/results.txt') else set()
     res = open('/tmp/mut/results.txt', 'a')
     for d in sorted(os.listdir(OUT)):
+        if d in done:
+            continue
         path = os.path.join(OUT, d)
+        txt = open(path).read()
+        first = next((v for k, v in FIRST.items() if k in txt), [])
+        order = first + [p for p in ['C%02d' % k for k in range(1, 21)] if p not in first]
         if sh('git -C /repo apply %s' % path).returncode != 0:
             res.write('%s DOES-NOT-APPLY\n' % d); continue
         caught = None
-        for p in ['C%02d' % k for k in range(1, 21)]:
+        for p in order:
             r = sh('VERIF_NO_EVIDENCE=1 ./check %s --tier quick 2>&1 | grep -E "VIOLATION" | head -1' % p, cwd='/verif', timeout=1800)
             if r.stdout.strip():
                 caught = p
